@@ -228,6 +228,7 @@ def run(ck):
     for w in rows:
         rows_by_p.setdefault(w["p"], []).append(w)
     period_readings = {"floor": 0, "ceil": 0}
+    table_done = set()
     for f, ps in zip(fs, reported):
         lo, hi = PS // f, -((-PS) // f)
         if not ps.isdigit() or not (max(1, lo) <= int(ps) <= hi):
@@ -237,7 +238,13 @@ def run(ck):
             continue
         P = int(ps)
         period_readings["floor" if P == lo else "ceil"] += 1
-        for w in rows_by_p.get(P, [])[:: (3 if q else 1)]:
+        tr = rows_by_p.get(P, [])
+        if P in table_done and len(tr) > 120:          # the complete table once per reported period, a sample afterwards
+            tr = rng.sample(tr, 120)
+        elif q:
+            tr = tr[::3]
+        table_done.add(P)
+        for w in tr:
             add(P, w["t"], w["n"], "table@reported-period", f)
         shapes(P, "shape@reported-period", f, light=True)
         top = ((M64 - 1) // P) * P
